@@ -827,3 +827,31 @@ Proof.
   unfold step, mkev. cbn [e_t e_in e_jr e_jn step_in fst snd]. unfold configure. go.
   all: try reflexivity; try lia'.
 Qed.
+
+(* A fresh (non-retry) initiation while the retransmit timer of an earlier one
+   is still pending moves that timer: the next retransmission is due 5 s +
+   jitter after the FRESH initiation (timersHandshakeInitiated re-arms
+   unconditionally).  The fresh initiation is let through the 5 s rate limit
+   here by ageing lastSentHandshake (hook event IShiftHs). *)
+Theorem fresh_initiation_rearms_retransmit : forall q i t d sh t1 ids j js T fuel,
+  t <= t1 -> t1 + sh >= t + RekeyTimeout -> sh <= t -> jit_ok j ->
+  let s1 := fst (step (rstate q i t d) (mkev t1 (IShiftHs sh) (0, 0))) in
+  let r2 := step s1 (mkev t1 (ITun ids) j) in
+  let d2 := t1 + RekeyTimeout + ms * fst j in
+  d2 <= T -> T < d2 + RekeyTimeout -> (2 <= fuel)%nat ->
+  snd r2 = [OInit] /\ next_due (fst r2) = Some (TRetransmit, d2) /\
+  snd (idle fuel js T (fst r2)) = [(d2, OInit)].
+Proof.
+  intros q i t d sh t1 ids j js T fuel H1 H2 H3 Hj s1 r2 d2 HA HB Hf.
+  assert (E : r2 = (rstate (stagePackets (map Pkt ids) q) 0 t1 d2, [OInit])).
+  { subst r2 s1 d2. unfold rstate, toff. go.
+    all: try lia'.
+    destruct (stagePackets (map Pkt ids) q) eqn:Eq; [exfalso; exact (stage_nonempty _ _ Eq)|].
+    go. all: try lia'. unfold t_mod. rewrite N.add_assoc. reflexivity. }
+  rewrite E. cbn [fst snd]. refine (conj eq_refl (conj (next_due_rstate _ _ _ _) _)).
+  destruct fuel as [|f]; [lia|]. destruct f as [|f]; [lia|].
+  rewrite (idle_fire _ js T _ _ _ (next_due_rstate _ _ _ _) HA).
+  rewrite fire_retry by lia.
+  rewrite (idle_late _ (tl js) T _ _ _ (next_due_rstate _ _ _ _)) by lia.
+  reflexivity.
+Qed.
